@@ -79,10 +79,14 @@ def handle (line : String) : String :=
       let n := runeCount doc
       let p := if fn then pn else pc
       let lim := if fn then none else some (readLen 4)
-      let model := showNatList ((List.range (n + 1)).map (findOffset p plain lim idx))
       match natList? impl with
-      | none => if impl == "ERR" then specFail model "findoffset-error" else badCase "impl offsets"
-      | some got => if got == runeStarts 0 doc 0 then answer model else specFail model "findoffset"
+      | none => if impl == "ERR" then specFail "?" "findoffset-error" else badCase "impl offsets"
+      | some got =>
+        -- the harness asks for every rune index of the document and (except at the very end of the corpus) for the
+        -- end-of-document index: n or n + 1 answers
+        if got.length < n || got.length > n + 1 then badCase "number of offsets" else
+        let model := showNatList ((List.range got.length).map (findOffset p plain lim idx))
+        if got == (runeStarts 0 doc 0).take got.length then answer model else specFail model "findoffset"
     | _, _, _, _ => badCase "findoff fields"
   -- e2e <mode> <ctx> <contentHex> <nameHex> <kind> <cands>
   | ["e2e", mode, ctx, dataHex, nameHex, kind, cands] =>
